@@ -158,7 +158,13 @@ def check_use_sites(r, case, par, text, what):
     twin = "\n".join(
         f"(:action two_{t}_{u} :parameters () :precondition (and (forall (?z - {t}) (and (mk ?z))) "
         f"(forall (?z - {u}) (and (mk2 ?z)))) :effect (and (r)))" for t in allt for u in allt if t != u)
-    actions = actions + "\n" + twin
+    nested = "\n".join(
+        f"(:action nchk_{t} :parameters () :precondition (and (and (forall (?z - {t}) (and (mk ?z))))) :effect (and (r)))\n"
+        f"(:action ochk_{t} :parameters () :precondition (and (or (forall (?z - {t}) (and (mk ?z))) (r))) :effect (and (r)))"
+        for t in allt)
+    actions = actions + "\n" + twin + "\n" + nested
+    preds += " " + " ".join(f"(t3_{t} ?a - object ?b - object ?c - {t}) (u3_{t} ?a - {t} ?b - object ?c - {t}) "
+                            f"(v3_{t} ?a - object ?b - {t} ?c - object)" for t in allt)
     base = f"(:predicates (r) (mk ?x - object) (mk2 ?x - object) {preds})\n(:functions {funcs})\n"
     D = guard(parse_domain, domain_text(text, f"(:constants {consts})\n" + base))
     Dq = guard(parse_domain, domain_text(text, base + actions))
@@ -184,6 +190,21 @@ def check_use_sites(r, case, par, text, what):
                            f"is required was {'accepted' if accepted else 'rejected: ' + str(got)}, expected "
                            f"{'accepted' if want else 'rejected'}", want, accepted, tags=case["tags"] + [what, kind])
                     return
+            # three-place facts in which one object fills two positions: every position keeps its own type
+            other = "o_object" if tau != "object" else f"o_{names[0]}"
+            for kind, fact in (("fact-repeat-12", f"(t3_{rho} {other} {other} o_{tau})"),
+                               ("fact-repeat-13", f"(u3_{rho} o_{tau} {other} o_{tau})"),
+                               ("fact-repeat-13-mid", f"(v3_{rho} {other} o_{tau} {other})")):
+                for where, ptxt in (("init", f"(define (problem p) (:domain t) (:objects {objs}) (:init {fact}) (:goal (and)))"),
+                                    ("goal", f"(define (problem p) (:domain t) (:objects {objs}) (:init) (:goal (and {fact})))")):
+                    got = guard(parse_problem, ptxt, D)
+                    r.count("transitions")
+                    accepted = not isinstance(got, Raised)
+                    if accepted != want:
+                        r.fail("use-site-" + kind, f"(:types {text}): {where} {fact} with an object of type {tau} where {rho} is "
+                               f"required was {'accepted' if accepted else 'rejected: ' + str(got)}, expected "
+                               f"{'accepted' if want else 'rejected'}", want, accepted, tags=case["tags"] + [what, kind])
+                        return
             # goal position
             ptxt = f"(define (problem p) (:domain t) (:objects {objs}) (:init) (:goal (and (p_{rho} o_{tau}))))"
             got = guard(parse_problem, ptxt, D)
@@ -208,14 +229,15 @@ def check_use_sites(r, case, par, text, what):
                 return
             from pddl_plus_parser.multi_agent.common import create_initial_state
             st = create_initial_state(prob)
-            got = guard(lambda: operator(Dq, f"chk_{rho}", [], prob.objects).is_applicable(st))
-            r.count("transitions")
             want = missing is None
-            if got is not want:
-                r.fail("forall-precondition-range", f"(:types {text}): forall (?z - {rho}) (mk ?z) with marked "
-                       f"{[t for t in in_range if t != missing]} (objects one per type) -> {got}, expected {want}",
-                       want, str(got), tags=case["tags"] + [what])
-                return
+            for act in ("chk", "nchk", "ochk"):
+                got = guard(lambda: operator(Dq, f"{act}_{rho}", [], prob.objects).is_applicable(st))
+                r.count("transitions")
+                if got is not want:
+                    r.fail("forall-precondition-range", f"(:types {text}): [{act}] forall (?z - {rho}) (mk ?z) with marked "
+                           f"{[t for t in in_range if t != missing]} (objects one per type) -> {got}, expected {want}",
+                           want, str(got), tags=case["tags"] + [what, act])
+                    return
         # two quantifiers over the same variable name with different types in one precondition
         for other in allt:
             if other == rho:
